@@ -313,10 +313,19 @@ impl Driver {
                     let res = unsafe { self.submit(key.clone(), arg) };
                     // if submission fails, remove all previously submitted fds.
                     if let Err(e) = res {
+                        let single = args.iter().count() == 1;
                         args.into_iter().for_each(|arg| {
                             // we don't care about renew errors
                             let _ = self.remove_one(&key, arg.fd);
                         });
+                        // The poller refuses regular files and directories (EPERM):
+                        // they are always ready, so the operation runs at once.
+                        if single
+                            && e.raw_os_error() == Some(libc::EPERM)
+                            && let Poll::Ready(res) = { key.borrow().carrier.operate() }
+                        {
+                            return Poll::Ready(res);
+                        }
                         return Poll::Ready(Err(e));
                     }
                     trace!("register {:?}", arg);
